@@ -1,1 +1,134 @@
-/-! # C14 — property theorems (to be filled in) -/
+import JokerVerif.Lemmas.RejectLemmas
+/-!
+# C14 — iterative rejection sampling respects request, budget and acceptance rule
+
+Property theorems only (model: `Model/Iter.lean`).  Every statement is for **every growth policy** `grow`,
+every library, every option combination, every recorded draw (`idx`, `uus`), every likelihood function and
+every `expf`.  `res` is what `Iter.iterativeSample` returns; `budget = max_prior_samples` or the library size.
+-/
+set_option linter.unusedSectionVars false
+namespace Iter
+open Reject
+
+section Generic
+variable {α ρ : Type} [LT α] [DecidableLT α] [Sub α] [Max α]
+variable {expf : α → α} {nonFinite : α → Bool} {llf : ρ → α} {lib : List (LibRow ρ α)} {c : Cfg}
+  {idx : Option (List Nat)} {grow : Nat → Nat → Nat → Nat → Nat} {uus : List (List α)} {res : Res ρ α}
+
+/-- Budget: never more than `max_prior_samples` (which must not exceed the library size) evaluations; the number
+evaluated is the sum of the batch sizes of the rounds and the number of evaluated rows reported. -/
+theorem budget (h : iterativeSample expf nonFinite llf lib c idx grow uus = .ok res) :
+    res.evaluated ≤ c.maxPrior.getD lib.length ∧ c.maxPrior.getD lib.length ≤ lib.length ∧
+    (res.blocks.map (·.2)).sum = res.evaluated ∧ res.out.evalRows.length = res.evaluated ∧
+    res.out.allLls.length = res.evaluated := by
+  obtain ⟨h1, _, h3, h4, h5, h6, h7, _⟩ := iterativeSample_facts h
+  have hlen : res.out.evalRows.length = res.evaluated := by
+    rw [h6, List.length_take, h3]; omega
+  refine ⟨h4, h1, by simpa using (tiles_cover _ _ _ h5).2, hlen, ?_⟩
+  rw [gather_length h7, hlen]
+
+/-- No library row is evaluated twice: the rounds evaluate consecutive, disjoint blocks of positions of
+`all_idx` that together enumerate `0 … evaluated−1` exactly once in order; the evaluated rows are that prefix of
+`all_idx`, hence pairwise distinct whenever `all_idx` is (always without shuffling; with shuffling because
+`choice(replace=False)` is duplicate-free). -/
+theorem no_row_twice (h : iterativeSample expf nonFinite llf lib c idx grow uus = .ok res) :
+    Tiles res.blocks 0 res.evaluated ∧
+    res.blocks.flatMap (fun b => List.range' b.1 b.2) = List.range res.evaluated ∧
+    res.out.evalRows = (evalOrder (c.maxPrior.getD lib.length) idx).take res.evaluated ∧
+    (idx = none → res.out.evalRows = List.range res.evaluated ∧ res.out.evalRows.Nodup) ∧
+    (∀ ix, idx = some ix → ix.Nodup → res.out.evalRows.Nodup) := by
+  obtain ⟨_, _, _, h4, h5, h6, _⟩ := iterativeSample_facts h
+  refine ⟨h5, ?_, h6, ?_, ?_⟩
+  · rw [(tiles_cover _ _ _ h5).1, List.range_eq_range']; simp
+  · intro hi
+    have : res.out.evalRows = List.range res.evaluated := by
+      rw [h6, hi]; simp only [evalOrder]; rw [List.take_range]; congr 1; omega
+    exact ⟨this, this ▸ List.nodup_range⟩
+  · intro ix hi hnd
+    rw [h6, hi]
+    simp only [evalOrder]
+    exact (hnd.sublist (List.take_sublist _ _)).sublist (List.take_sublist _ _)
+
+/-- At most `n_requested_samples` nonlinear samples, each with exactly `n_linear_samples` rows. -/
+theorem at_most_requested (h : iterativeSample expf nonFinite llf lib c idx grow uus = .ok res) :
+    res.out.good.length ≤ c.req ∧ res.out.rows.length = res.out.good.length * c.nLinear ∧
+    res.out.rows.length ≤ c.req * c.nLinear := by
+  obtain ⟨_, _, _, _, _, _, _, _, _, h10, _, _, h13, recs, a5, a6, _, _⟩ := iterativeSample_facts h
+  have hg : res.out.good.length ≤ c.req := by rw [h10]; exact List.length_take_le _ _
+  have hr : res.out.rows.length = res.out.good.length * c.nLinear := by
+    rw [a6, rep_length, List.length_map, gather_length a5, gather_length h13]
+  exact ⟨hg, hr, by rw [hr]; exact Nat.mul_le_mul_right _ hg⟩
+
+/-- Exactly `n_requested_samples` whenever at least that many evaluated samples pass (in the last round). -/
+theorem exactly_when_enough (h : iterativeSample expf nonFinite llf lib c idx grow uus = .ok res)
+    (henough : c.req ≤ (goodPos expf res.out.allLls res.uuLast).length) :
+    res.out.good.length = c.req ∧ res.out.rows.length = c.req * c.nLinear := by
+  obtain ⟨_, _, _, _, _, _, _, _, _, h10, _⟩ := iterativeSample_facts h
+  obtain ⟨_, hr, _⟩ := at_most_requested h
+  have : res.out.good.length = c.req := by rw [h10, List.length_take]; omega
+  exact ⟨this, by rw [hr, this]⟩
+
+/-- Every returned sample is an evaluated prior sample accepted by the rule of C02 against the maximum over
+**everything evaluated so far**, with the uniforms of the **last** round (`uus[#rounds − 1]`): the selection is
+the first `n_requested_samples` positions of the C02 mask of all likelihoods; it is never empty; the rows are
+`lib[evalRows[good]]`, a sub-sequence of the evaluated rows, `n_linear_samples` copies each. -/
+theorem accepted_by_rule (h : iterativeSample expf nonFinite llf lib c idx grow uus = .ok res) :
+    (∃ k, uus[k]? = some res.uuLast ∧ res.blocks.length = k + 1) ∧
+    res.uuLast.length = res.out.allLls.length ∧
+    gather (lib.map (fun r => llf r.nonlin)) res.out.evalRows = some res.out.allLls ∧
+    res.out.good = (goodPos expf res.out.allLls res.uuLast).take c.req ∧
+    (∀ p ∈ res.out.good, ∃ m l u, maxOf res.out.allLls = some m ∧ res.out.allLls[p]? = some l ∧
+        res.uuLast[p]? = some u ∧ u < expf (l - m)) ∧
+    goodPos expf res.out.allLls res.uuLast ≠ [] ∧
+    gather res.out.evalRows res.out.good = some res.out.full ∧ res.out.full.Sublist res.out.evalRows ∧
+    ∃ recs, gather lib res.out.full = some recs ∧ res.out.rows = rep c.nLinear (recs.map (·.nonlin)) := by
+  obtain ⟨_, _, _, _, _, _, h7, h8, h9, h10, h11, _, h13, recs, a5, a6, _, _⟩ := iterativeSample_facts h
+  have hpw : res.out.good.Pairwise (· < ·) := by
+    rw [h10]; exact (goodPos_pairwise expf _ _).sublist (List.take_sublist _ _)
+  refine ⟨h8, h9, h7, h10, ?_, h11, h13, gather_sublist _ _ _ _ rfl hpw h13, recs, a5, a6⟩
+  intro p hp
+  rw [h10] at hp
+  exact (mem_goodPos expf _ _ p).mp (List.mem_of_mem_take hp)
+
+/-- A library too small for the request makes it raise (`ValueError`), before anything is evaluated. -/
+theorem small_library_raises (expf : α → α) (nonFinite : α → Bool) (llf : ρ → α) (lib : List (LibRow ρ α))
+    (c : Cfg) (idx : Option (List Nat)) (grow : Nat → Nat → Nat → Nat → Nat) (uus : List (List α))
+    (hb : c.maxPrior.getD lib.length ≤ lib.length)
+    (hs : c.maxPrior.getD lib.length < c.initBatch.getD (c.growth * c.req)) :
+    iterativeSample expf nonFinite llf lib c idx grow uus = .error .value := by
+  unfold iterativeSample
+  simp [Nat.not_lt.mpr hb, hs]
+
+/-- The call yields a sample table or an error — there is no third kind of result; and on the guarded
+(in-memory) path a successful call has seen only finite likelihoods. -/
+theorem result_is_samples_or_error (expf : α → α) (nonFinite : α → Bool) (llf : ρ → α) (lib : List (LibRow ρ α))
+    (c : Cfg) (idx : Option (List Nat)) (grow : Nat → Nat → Nat → Nat → Nat) (uus : List (List α)) :
+    (∃ e, iterativeSample expf nonFinite llf lib c idx grow uus = .error e) ∨
+    (∃ res, iterativeSample expf nonFinite llf lib c idx grow uus = .ok res ∧
+        (c.guard = true → ∀ l ∈ res.out.allLls, nonFinite l = false)) := by
+  cases hr : iterativeSample expf nonFinite llf lib c idx grow uus with
+  | error e => exact Or.inl ⟨e, rfl⟩
+  | ok res =>
+    obtain ⟨_, _, _, _, _, _, _, _, _, _, _, h12, _⟩ := iterativeSample_facts hr
+    exact Or.inr ⟨res, rfl, h12⟩
+
+end Generic
+
+/-! ### non-vacuity: two growth rounds over ℤ (thresholds scaled by 10), 6-row library, request 2 -/
+section Examples
+
+def toyExp (x : ℤ) : ℤ := if x = 0 then 10 else if x = -1 then 5 else 1
+def toyLib : List (LibRow ℤ ℤ) := [⟨-5, 0⟩, ⟨-1, 1⟩, ⟨-9, 2⟩, ⟨-2, 3⟩, ⟨-8, 4⟩, ⟨0, 5⟩]
+def toyCfg : Cfg := ⟨2, none, some 3, 128, 1, 128, false⟩
+
+example : (match iterativeSample toyExp (fun _ => false) id toyLib toyCfg none (fun _ _ _ _ => 3)
+      [[9, 1, 9], [9, 1, 9, 2, 5, 5]] with
+    | .ok res => (res.blocks, res.evaluated, res.out.good, res.out.full, res.out.rows, res.out.lnPrior)
+    | .error _ => ([], 0, [], [], [], [])) = ([(0, 3), (3, 3)], 6, [1, 5], [1, 5], [-1, 0], [1, 5]) := by decide
+
+example : iterativeSample toyExp (fun _ => false) id toyLib ⟨2, none, some 7, 128, 1, 128, false⟩ none
+    (fun _ _ _ _ => 3) [] = .error .value :=
+  small_library_raises _ _ _ _ _ _ _ _ (by decide) (by decide)
+
+end Examples
+end Iter
